@@ -171,7 +171,7 @@ def handle (op : String) (args : List String) : String :=
   | "rstslots.classes", [which] =>
     -- histogram of pair classes for the evidence: "<class>=<count> ..."
     let ps := pairs writer (if which = "loader" then loader else reader)
-    let cls : List (String × Cls) := [("exact", .exact), ("scaled", .scaled), ("flag", .flag), ("table", .table),
+    let cls : List (String × Cls) := [("exact", .exact), ("exactScale", .exactScale), ("scaled", .scaled), ("flag", .flag), ("table", .table),
       ("rawUnits", .rawUnits), ("signedSmry", .signedSmry), ("smryKey", .smryKey), ("mismatch", .mismatch)]
     " ".intercalate (cls.map fun (n, c) =>
       s!"{n}={(ps.filter fun p => classify (arrTy p.2.arr) p.1.rpre p.2.post = c).length}")
